@@ -192,12 +192,25 @@ pub fn malformations(r: &mut Rng, fam: Fam, host: &Frame, out: &mut Vec<Malforme
         if let Role::Prop { id, kind } = host.segs[i].role.clone() {
             let mut b = vec![id];
             if kind == PK::Pair {
-                if r.bool() {
-                    b.extend_from_slice(&lp(bad));
-                    b.extend_from_slice(&lp(b"v"));
-                } else {
-                    b.extend_from_slice(&lp(b"k"));
-                    b.extend_from_slice(&lp(bad));
+                match r.below(3) {
+                    0 => {
+                        b.extend_from_slice(&lp(bad));
+                        b.extend_from_slice(&lp(b"v"));
+                    }
+                    1 => {
+                        b.extend_from_slice(&lp(b"k"));
+                        b.extend_from_slice(&lp(bad));
+                    }
+                    _ => {
+                        // a character straddling the name/value boundary
+                        let (ch, cut) = *r.pick(crate::mon::bytes::STRADDLE);
+                        let mut name = b"k".to_vec();
+                        name.extend_from_slice(&ch[..cut]);
+                        let mut value = ch[cut..].to_vec();
+                        value.extend_from_slice(b"v");
+                        b.extend_from_slice(&lp(&name));
+                        b.extend_from_slice(&lp(&value));
+                    }
                 }
             } else {
                 b.extend_from_slice(&lp(bad));
